@@ -263,3 +263,17 @@ pub mod pda {
 pub fn stub_find_program_address(seeds: &[&[u8]], program_id: &anchor_lang::prelude::Pubkey) -> (anchor_lang::prelude::Pubkey, u8) {
     pda::derive(seeds, program_id)
 }
+
+/// replacement of `From<std::io::Error> for anchor_lang::error::Error` (the `?` on a Borsh (de)serialisation result, e.g.
+/// `DynamicTick::deserialize` in the dynamic tick array): the real one decodes the bit-packed `io::Error`, renders it to a
+/// `String` and drops it (measured: ~1 M symex steps per call site even when the error is infeasible). The stub keeps the
+/// outcome kind (`ProgramError::BorshIoError`), leaks the `io::Error` and drops the message. Use as
+/// `#[kani::stub(<anchor_lang::error::Error as core::convert::From<std::io::Error>>::from, stub_err_from_io)]`.
+pub fn stub_err_from_io(e: std::io::Error) -> AErr {
+    core::mem::forget(e);
+    AErr::ProgramError(Box::new(anchor_lang::error::ProgramErrorWithOrigin {
+        program_error: anchor_lang::solana_program::program_error::ProgramError::BorshIoError(alloc::string::String::new()),
+        error_origin: None,
+        compared_values: None,
+    }))
+}
